@@ -6,7 +6,8 @@ import hirq, anchors, cone, engine
 EXPLANATION = ("H1 panic-source cone over the MIR call graph (resolved callees, closures, trait-object fan-out) from the frame decoder "
                "and the driver's response arm: every diverging call (panic!/unimplemented!/assert), every Assert terminator (bounds, "
                "overflow) and every call to an external function that may panic (#[track_caller] or the frozen may-panic table) must be "
-               "absent or reviewed in rules/triage/C11.tsv (one reason per line); H2 every recursive cycle in that cone must be bounded "
+               "absent, decided by a discharge rule that re-reads the code on every run (guarded arithmetic, operands bounded by construction, "
+               "the consumed prefix, capped allocations, ...) or reviewed in rules/triage/C11.tsv (one reason per line); H2 every recursive cycle in that cone must be bounded "
                "by a depth parameter compared with a constant before the recursive call; H3 inside the TLV parser an `Incomplete` from a "
                "streaming parser applied to a take(len)-bounded content slice must not be propagated outward with `?`; H4 a decode error "
                "leaves the driver loop with Err (dropping all reply senders).  Not decided: memory exhaustion on huge announced lengths; "
